@@ -2,6 +2,7 @@ package mp4
 
 import (
 	"encoding/binary"
+	"fmt"
 	"io"
 
 	"github.com/Eyevinn/mp4ff/bits"
@@ -66,12 +67,15 @@ func DecodeStyp(hdr BoxHeader, startPos uint64, r io.Reader) (Box, error) {
 	if err != nil {
 		return nil, err
 	}
-	b := StypBox{data: data}
-	return &b, nil
+	sr := bits.NewFixedSliceReader(data)
+	return DecodeStypSR(hdr, startPos, sr)
 }
 
 // DecodeStypSR - box-specific decode
 func DecodeStypSR(hdr BoxHeader, startPos uint64, sr bits.SliceReader) (Box, error) {
+	if hdr.payloadLen() < 8 {
+		return nil, fmt.Errorf("styp: payload of %d bytes is too short for major brand and minor version", hdr.payloadLen())
+	}
 	b := StypBox{data: sr.ReadBytes(int(hdr.Size) - hdr.Hdrlen)}
 	return &b, sr.AccError()
 }
